@@ -5,6 +5,7 @@ import (
 	"fmt"
 	"math/big"
 	"os"
+	"path/filepath"
 	"strings"
 	"time"
 
@@ -21,7 +22,7 @@ import (
 
 var c03Modes = []string{"", "prefer_ocsp", "prefer_crl", "ocsp_only", "crl_only", "disabled"}
 var c03OCSP = []string{"no-aia", "good", "revoked", "unavailable"}
-var c03CRL = []string{"none-known", "listed", "not-listed", "cdp-unavailable"}
+var c03CRL = []string{"none-known", "listed", "not-listed", "cdp-unavailable", "cdp-unavailable+listed-in-configured-file"}
 var c03Chains = []string{"leaf-ca", "leaf-sub-root", "two-chains"}
 
 type c03Cell struct {
@@ -130,6 +131,8 @@ func (c *c03Cast) run(cell c03Cell) (o c03Obs) {
 		default:
 			net.Down(c03CRLURL)
 		}
+		files := FreshDir("c03f")
+		defer os.RemoveAll(files)
 		storage := "memory"
 		if cell.Disk {
 			storage = "disk"
@@ -140,7 +143,13 @@ func (c *c03Cast) run(cell c03Cell) (o c03Obs) {
 			OCSP: &config.OCSPConfig{OCSPAIAStrict: cell.AIAStrict},
 			CRL:  &config.CRLConfig{WorkDir: dir, StorageType: storage, CDPConfig: &config.CDPConfig{CRLCDPStrict: cell.CDPStrict}},
 		}
-		if cell.Mode == "disabled" || cell.Mode == "ocsp_only" {
+		if cell.CRL == "cdp-unavailable+listed-in-configured-file" {
+			f := filepath.Join(files, "configured.crl")
+			os.WriteFile(f, world.SimpleCRL(iss, 1, 401).DER(), 0644)
+			opt.CRL.CRLFiles = []string{f}
+			opt.CRL.TrustedSignatureCertsFiles = []string{WritePEM(files, "iss.pem", iss.Cert)}
+		}
+		if (cell.Mode == "disabled" || cell.Mode == "ocsp_only") && cell.CRL != "cdp-unavailable+listed-in-configured-file" {
 			opt.CRL = nil // these modes must work without any crl_config
 		}
 		w := NewTW(opt)
@@ -170,7 +179,7 @@ func c03Expect(cell c03Cell) (reject bool, ocspOn, crlOn bool) {
 	ocspOn = mode == "prefer_ocsp" || mode == "prefer_crl" || mode == "ocsp_only"
 	crlOn = mode == "prefer_ocsp" || mode == "prefer_crl" || mode == "crl_only"
 	ocspBad := cell.OCSP == "revoked" || (cell.OCSP == "unavailable" && cell.AIAStrict)
-	crlBad := cell.CRL == "listed" || (cell.CRL == "cdp-unavailable" && cell.CDPStrict)
+	crlBad := cell.CRL == "listed" || cell.CRL == "cdp-unavailable+listed-in-configured-file" || (cell.CRL == "cdp-unavailable" && cell.CDPStrict)
 	reject = (ocspOn && ocspBad) || (crlOn && crlBad)
 	return
 }
@@ -179,7 +188,7 @@ func c03Expect(cell c03Cell) (reject bool, ocspOn, crlOn bool) {
 func RunC03(tier string, args []string) int {
 	chk := fw.NewCheck("C03", tier, "model_checking")
 	chk.Assumptions = []string{
-		"finite truth table enumerated completely: mode(6) x OCSP outcome(4) x aia_strict(2) x CRL outcome(4) x cdp_strict(2) x backend(2) x chain shape(3) = 2304 cells; each cell = fresh Provision -> one VerifyClientCertificate -> Cleanup on the real caddy module",
+		"finite truth table enumerated completely: mode(6) x OCSP outcome(4) x aia_strict(2) x CRL outcome(5) x cdp_strict(2) x backend(2) x chain shape(3) = 2880 cells; each cell = fresh Provision -> one VerifyClientCertificate -> Cleanup on the real caddy module",
 		"oracle: reject <=> (OCSP enabled and (revoked or strict-unavailable)) or (CRL enabled and (listed or strict-unavailable)); side-effect monitors on the scripted origin and the work_dir",
 		"empty verifiedChains are not judged (the TLS stack never passes them in require-and-verify mode)",
 	}
@@ -232,7 +241,7 @@ func RunC03(tier string, args []string) int {
 								if !ocspOn && o.OCSPHits > 0 {
 									chk.Violation("C03|ocsp-contacted-though-disabled|mode="+modeName, fmt.Sprintf("cell %s: %d OCSP requests although the mode disables OCSP", cell, o.OCSPHits), cell)
 								}
-								if !crlOn && (o.CRLHits > 0 || o.DirEntries > 0) {
+								if !crlOn && (o.CRLHits > 0 || o.DirEntries > 0) && cell.CRL != "cdp-unavailable+listed-in-configured-file" {
 									chk.Violation("C03|crl-touched-though-disabled|mode="+modeName, fmt.Sprintf("cell %s: %d CRL fetches, %d work_dir entries although the mode disables CRL checking", cell, o.CRLHits, o.DirEntries), cell)
 								}
 							}
